@@ -16,6 +16,7 @@ import AdaptaVerif.Lemmas.HyperTree
 import AdaptaVerif.Lemmas.HyperTreeRzle
 import AdaptaVerif.Lemmas.HyperTreeWfb
 import AdaptaVerif.Lemmas.HyperTreeJunctions
+import AdaptaVerif.Lemmas.HyperTreeMove
 import AdaptaVerif.Lemmas.HyperTreeWitness
 import AdaptaVerif.Props.C12
 namespace AdaptaVerif.Props.C12Ops
@@ -271,6 +272,51 @@ example : ((rzleNode 100 (mkImp exStar [(1, 0)] [1] false) 0 none).map (fun s =>
 example : ((rzleNode 100 (mkImp exTwoJunctions [(1, 0), (2, 1)] [1] true) 0 none).map
     (fun s => [[s.t.nodes.length], s.delJ, s.delC, s.junctions.map (·.1), s.roots])) = some [[5], [2], [1], [1], [1]] := by
   decide +kernel
+
+/-- `HyperedgeImprover::moveJunctionAlongCommonEdge` (with the caller's rewrite of the junction map),
+    all branches — nothing to move, common edges split, junction moved (old node kept or freed),
+    junction split in two: the heap is again a well-formed tree. -/
+theorem moveJunction_preserves_tree {s : Imp} {j : Nat} {r : MoveResult} (ht : Tree s.t)
+    (h : moveJunctionStep s j = some r) : Tree r.s.t :=
+  AdaptaVerif.Lemmas.HyperTreeMove.moveJunctionStep_tree ht h
+
+/-- the caller's `while ((node = moveJunctionAlongCommonEdge(node, changed)))` loop for one junction -/
+theorem moveJunctionFully_preserves_tree {f : Nat} {s : Imp} {j : Nat} {s' : Imp} (ht : Tree s.t)
+    (h : moveJunctionFully f s j = some s') : Tree s'.t :=
+  AdaptaVerif.Lemmas.HyperTreeMove.moveJunctionFully_tree f s j s' ht h
+
+-- non-vacuity: the junction of `exCommon` moves along the common first segment (one split, one merge)
+example : (moveJunctionStep (mkImp exCommon [(1, 0)] [1] false) 1).map
+    (fun r => (r.s.t.nodes.length, r.newSelf, r.s.t.leaves)) = some (6, some 1, [3, 4, 5]) := by
+  decide +kernel
+
+/-! ### composition -/
+
+/-- the rewriting steps of `HyperedgeImprover::execute` that act on the tree structure, plus the
+    coordinate changes of the shift-segment moves (which do not touch the structure) -/
+inductive Rewrite : Imp → Imp → Prop
+  | rzle {f : Nat} {s : Imp} {n : Nat} {ign : Option Nat} {s' : Imp} :
+      rzleNode f s n ign = some s' → Rewrite s s'
+  | move {s : Imp} {j : Nat} {r : MoveResult} : moveJunctionStep s j = some r → Rewrite s r.s
+  | shift {s : Imp} (n : Nat) (p : AdaptaVerif.Model.Geometry.Pt) :
+      Rewrite s { s with t := s.t.modNode n (fun x => { x with point := p }) }
+
+/-- any finite sequence of rewrites -/
+inductive Rewrites : Imp → Imp → Prop
+  | refl (s : Imp) : Rewrites s s
+  | step {s s' s'' : Imp} : Rewrites s s' → Rewrite s' s'' → Rewrites s s''
+
+/-- The modelled rewrites compose: from a tree, any finite sequence of zero-length-edge removals,
+    junction moves and coordinate shifts — in any order, from any nodes, with any fuel — gives a
+    well-formed tree. -/
+theorem improve_preserves_tree {s s' : Imp} (ht : Tree s.t) (h : Rewrites s s') : Tree s'.t := by
+  induction h with
+  | refl => exact ht
+  | step _ hr ih =>
+    cases hr with
+    | rzle h1 => exact removeZeroLengthEdges_preserves_tree ih h1
+    | move h1 => exact moveJunction_preserves_tree ih h1
+    | shift n p => exact modNode_Tree _ _ _ (fun _ => rfl) (fun _ => rfl) ih
 
 /-! ### side conditions: closed witnesses
 
